@@ -35,6 +35,7 @@ pub const NEGATIONS: &[&str] = &[
     "a/**/b", "**/a/*/**", "{**/a/**,**/b}", "**/<a/:1,2>*", "**/a*/**", "**/*a/**", "$/**", "**/$",
     "<[0-9]:1,>", "<[a-z]:1,>", "{*.md,<[a-z]:1,>}", "<?:1,>", "<[a-zA-Z]:1,>", "{<[0-9]:1,>,*.rs}", "<a:1,>", "<[!.]:1,>",
     "<[0-9]:2,>", "<[a-z]:1,3>", "{{a/**,**/*.rs},b}", "{x,{**/.git/**,**/*.md}}", "{{a,b}/**,c}", "<{a,b}:1,>",
+    "(?i)**/*.TXT", "**/(?i)b", "(?i)A/**", "**/(?i)SRC/**", "(?i)**/{A,B}", "**/(?i)LIB.RS", "(?i)**/MAIN.*", "**/(?i)FOO/**", "(?i)**/[AB]",
 ];
 
 pub fn parse_doc(expr: &str) -> Option<Ast> {
